@@ -1,8 +1,19 @@
 From Coq Require Import ZArith List String Bool.
 From FV Require Import Base.Ser Base.Res C06.Model.
+From FV Require C06.ModelSplit.
 Import ListNotations.
 Open Scope string_scope.
+Definition split_cov_z (c : list Z) (r : list Z) : option ((list Z * list Z) * (list Z * list Z)) :=
+  match ModelSplit.split_cov (ModelSplit.mkCov c r) with
+  | Some (a, b) => Some ((ModelSplit.cov a, ModelSplit.recs a), (ModelSplit.cov b, ModelSplit.recs b))
+  | None => None end.
+Definition split_class_z (c : list Z) (d : list (Z * Z)) (r : list Z) :=
+  match ModelSplit.split_class (ModelSplit.mkCls c d r) with
+  | Some (a, b) => Some (((ModelSplit.ccov a, ModelSplit.classDefs a), ModelSplit.rows a), ((ModelSplit.ccov b, ModelSplit.classDefs b), ModelSplit.rows b))
+  | None => None end.
 Definition reg : registry := [
-  ("getAllData", run3 getAllData)
+  ("getAllData", run3 getAllData);
+  ("split_cov", run2 split_cov_z);
+  ("split_class", run3 split_class_z)
 ].
 Definition fv_entry := dispatch reg.
